@@ -325,9 +325,9 @@ func (c *Channel) proposeNewSession(sid [32]byte, newS *Session) (ret *Session) 
 func (c *Channel) onReadySession(now time.Time) error {
 	se := c.sessions[2]
 	sessRemote := se.Session.RemoteKey()
-	if !c.remoteKey.IsZero() && !x509.EqualPublicKeys(&c.remoteKey, &sessRemote) {
+	if err := c.checkKey(&sessRemote); err != nil {
 		c.setNext(sessionEntry{})
-		return errors.New("session negotiated with wrong peer")
+		return errors.Wrap(err, "session negotiated with wrong peer")
 	}
 	c.remoteKey = se.Session.RemoteKey()
 	c.lastReceived = now
